@@ -248,3 +248,17 @@ Qed.
 Example ws_filters : rel_filters ws_ops ws_sel = true /\
   rel_filters (ws_ops ++ [([1], [[1]])]) ws_sel = false.
 Proof. split; vm_compute; reflexivity. Qed.
+
+(* a negated reference to an undecided tag whose definition can never match (stored as the empty set):
+   the uncertain branch is the conjunct without further conditions (d05297f), every undecided stream matches *)
+Definition wn_tags (t : nat) : option (tagdetails patom nat) :=
+  match t with
+  | 0 => Some (mkTag patom nat (fun _ => false) (fun _ => true) true [])
+  | _ => None
+  end.
+Example negated_empty_definition : forall base sid,
+  exists d', inline_dnf wn_tags demorgan 1 [[CTag 0 (mkAccept false true false true)]] = Some d' /\
+             length d' = 2 /\ eval_dnf wn_tags (pe base) sid d' = true.
+Proof.
+  intros. eexists. split; [vm_compute; reflexivity|]. split; reflexivity.
+Qed.
